@@ -206,11 +206,30 @@ impl<T> NFA<T> {
     }
 
     /// For `a` regular expression it is equivalent to `a?`
-    pub fn optional(mut self) -> Self {
-        if let Some(start) = self.states.get_mut(&self.start) {
-            start.epsilons.insert(self.stop);
+    pub fn optional(self) -> Self {
+        // Fresh start and stop states are required (same as in `many`), adding
+        // epsilon edge from the old start to the old stop is only correct when
+        // nothing leads back to the start and nothing leads out of the stop,
+        // which is not true if operand begins or ends with a loop (`some`).
+        let (mut states, ends) = Self::merge_states(once(self), 2);
+        let (from, to) = ends[0];
+
+        let start = NFAStateId(0);
+        let stop = NFAStateId(1);
+        let mut start_state = NFAState::new();
+        start_state.epsilons.insert(from);
+        start_state.epsilons.insert(stop);
+        if let Some(to_state) = states.get_mut(&to) {
+            to_state.epsilons.insert(stop);
         }
-        self
+        states.insert(start, start_state);
+        states.insert(stop, NFAState::new());
+
+        Self {
+            start,
+            stop,
+            states,
+        }
     }
 
     /// For `a` regular expression it is equivalent to `a*`
